@@ -367,6 +367,7 @@ func families(prop string, t gfam.Tier) []*gfam.Grammar {
 	case "C02":
 		out = append(out, gfam.SubProd(t)...)
 		out = append(out, gfam.NegLookDeep(t)...)
+		out = append(out, gfam.ElidedExplicit(t)...) // abandoned alternatives that explicitly matched an elided token
 	case "C10":
 		out = append(out, gfam.Elision(t)...)
 		out = append(out, gfam.ElidedExplicit(t)...)
